@@ -8,7 +8,8 @@ RULE = ("every extensible host map (options, MakeCredential / GetAssertion exten
         "CredentialManagement, pubKeyCredParams entries) inside a full request and stand-alone; an unknown text-keyed member inserted at every "
         "position; unknown values from a grammar-based generator of definite-length CBOR (all seven majors, tags, half/single/double floats, "
         "simple values, nesting depth up to 16, sizes up to hundreds of bytes, non-minimal INTEGER heads) plus the real-world extras "
-        "(transports, credBlob, minPinLength, credProps, hmac-secret-mc, prf). Each case is paired with the same request without the member: "
+        "(transports, credBlob, minPinLength, credProps, hmac-secret-mc, prf), every member name of any other map of the specification, and "
+        "names one edit away from the host's own members (camel-case prefixes and suffixes, dropped / added characters, other capitalisation). Each case is paired with the same request without the member: "
         "both must decode, and to the same value. Non-trivial = distinct (host, position, unknown value)")
 ASSUMPTIONS = ["unknown values with non-minimal or 8-byte LENGTH heads are rejected with 0x12 by the skipper (C05 demands that for non-minimal encodings); C06 quantifies over shortest-form lengths"]
 TECHNIQUE = "Coq proof: skipper consumes exactly one item for every definite-length CBOR tree (induction, unbounded depth); text-keyed maps decode to the same record with or without any number of unknown members at any positions (entry-loop theorem); paired differential run"
@@ -89,6 +90,26 @@ def cases(tier, rng, schema, feats):
                 res.append((k, mutate.random_item(rng, 0, 3)))
         return res
 
+    def near_for(tname):
+        """names one edit away from a member of the host itself: camel-case prefixes (largeBlobKey -> largeBlob, large), a dropped or added
+        final character, other capitalisation, common suffixes - an alias added for 'compatibility' would capture exactly such a name"""
+        import re as _re
+        d = schema.get(tname)
+        own = {k for f in d["fields"] for k in [f["key"]] + list(f["aliases"]) if isinstance(k, str)} if d else set()
+        names = set()
+        for k in own:
+            segs = _re.findall(r"[A-Za-z][a-z0-9]*|[^A-Za-z]+", k)
+            for j in range(1, len(segs)):
+                names.add("".join(segs[:j]).rstrip("-_"))
+                names.add("".join(segs[j:]).lstrip("-_"))
+                names.add("".join(segs[j:]).lstrip("-_")[:1].lower() + "".join(segs[j:]).lstrip("-_")[1:])
+            names |= {k[:-1], k + "s", k + "Key", k + "Id", k + "Name", k.lower(), k.upper(), k[:1].upper() + k[1:], k.replace("-", "_"), k.replace("-", ""), "_" + k, k + " "}
+        res = []
+        for k in sorted(n for n in names if n and n not in own):
+            for v in (True, cbor.M([("read", True)]), "some text"):
+                res.append((k, v))
+        return res
+
     for cmd, (variant, t) in REQUESTS.items():
         if cmd == 0x41:
             continue
@@ -111,7 +132,7 @@ def cases(tier, rng, schema, feats):
             # every foreign member name, with a text and a non-text value, with all and with no optional members
             for present in ("all", "none"):
                 tree = g.named_wire(t, present=present)
-                for k, v in foreign_for(t):
+                for k, v in foreign_for(t) + near_for(t):
                     if any(k == kk for kk, _ in tree.pairs):
                         continue
                     pair("decty", t, tree, mutate.insert_pair(tree, (), rng.below(len(tree.pairs) + 1), k, v))
